@@ -88,11 +88,16 @@ def deleteChannel (m : Mod) (rows : List Nat) (c : ChanDesc) : Except String Mod
   if allOff then
     let shared := c.keys.filter (fun key => others.any (fun o => o.keys.contains key))
     let dropped := c.keys.filter (fun key => !(shared.contains key))
+    -- recordings and clamps of states that no longer exist go with the channel (fix N13)
+    let goneStates := (dropped.filter (fun key => c.states.any (·.1 == key)))
+      ++ (if others.any (·.current == c.current) then [] else [c.current])
     .ok { m with
       chans := others,
       currents := if others.any (·.current == c.current) then m.currents else m.currents.erase c.current,
       cols := cols1.filter (fun p => !(dropped.contains p.1)),
-      flags := flags1.filter (fun p => p.1 != c.name) }
+      flags := flags1.filter (fun p => p.1 != c.name),
+      recs := m.recs.filter (fun r => !(goneStates.contains r.2)),
+      ext := m.ext.filter (fun e => !(goneStates.contains e.1)) }
   else .ok { m with cols := cols1, flags := flags1 }
 
 /-- `view.set(key, val)` on a node column: rows in view that hold the key -/
